@@ -1,63 +1,37 @@
-(* Proofs/PowP3.v — the compact guard is exact: outside it bits_to_target never agrees
-   with an unflagged Core SetCompact. *)
+(* Proofs/PowP3.v — the inputs on which bits_to_target / target_to_bits used to diverge from
+   Bitcoin Core (the former known finding K-C17-compact, repaired by de6be4c), now as instances
+   of agreement.  (Before the repair this file proved that the guard `exponent >= 3, sign bit
+   clear, no overflow` was exactly the agreement domain; agreement now holds for every
+   four-byte bits value: PowP.bits_to_target_eq_core.) *)
 From V Require Import Base.Prelude Base.Ints Model.Helper Model.Block Model.Pow Spec.CorePow
-  Proofs.PowP.
+  Proofs.PowP Proofs.PowP2.
 
-Lemma set_compact4_sign b0 b1 b2 e :
-  bits4_ok b0 b1 b2 e -> 128 <= b2 -> 3 <= e ->
-  let c' := coef b0 b1 b2 - 8388608 in
-  exists ovf, set_compact (from_le [b0; b1; b2; e]) =
-              (u256 (c' * 256 ^ (e - 3)), negb (c' =? 0), ovf).
-Proof.
-  intros (H0 & H1 & H2 & He) Hs H3 c'. rewrite from_le4.
-  assert (0 <= c' < 8388608) as Hc by (unfold c', coef; lia).
-  replace (coef b0 b1 b2) with (c' + 8388608) by (unfold c'; lia).
-  unfold set_compact.
-  assert (Z.shiftr (c' + 8388608 + 16777216 * e) 24 = e) as ->.
-  { rewrite Z.shiftr_div_pow2 by lia. change (2 ^ 24) with 16777216.
-    replace (c' + 8388608 + 16777216 * e) with (c' + 8388608 + e * 16777216) by lia.
-    rewrite Z.div_add by lia. rewrite Z.div_small by lia. lia. }
-  assert (Z.land (c' + 8388608 + 16777216 * e) 8388607 = c') as ->.
-  { change 8388607 with (Z.ones 23). rewrite Z.land_ones by lia. change (2 ^ 23) with 8388608.
-    replace (c' + 8388608 + 16777216 * e) with (c' + (1 + 2 * e) * 8388608) by lia.
-    rewrite Z.mod_add by lia. apply Z.mod_small. lia. }
-  assert (Z.land (c' + 8388608 + 16777216 * e) 8388608 = 8388608) as ->.
-  { change 8388608 with (2 ^ 23) at 2. rewrite land_pow2 by lia. rewrite testbit_div by lia.
-    change (2 ^ 23) with 8388608.
-    replace (c' + 8388608 + 16777216 * e) with (c' + (1 + 2 * e) * 8388608) by lia.
-    rewrite Z.div_add by lia. rewrite Z.div_small by lia. rewrite Z.add_0_l.
-    rewrite Z.odd_add, Z.odd_mul. reflexivity. }
-  change (8388608 =? 0) with false. cbn [negb]. rewrite andb_true_r.
-  destruct (Z.leb_spec e 3) as [L|L].
-  - assert (e = 3) as -> by lia. change (8 * (3 - 3)) with 0. rewrite Z.shiftr_0_r.
-    change (3 - 3) with 0. rewrite Z.pow_0_r, Z.mul_1_r. unfold u256. rewrite Z.mod_small by lia.
-    eexists. reflexivity.
-  - rewrite Z.shiftl_mul_pow2 by lia.
-    replace (2 ^ (8 * (e - 3))) with (256 ^ (e - 3)).
-    2:{ change 256 with (2 ^ 8). rewrite <- Z.pow_mul_r by lia. reflexivity. }
-    eexists. reflexivity.
-Qed.
+(* exponent < 3: an int (was a float), Core's value *)
+Lemma compact_exponent_lt3_instance :
+  bits_to_target [0; 1; 0; 2] = Ok (PInt 1) /\ set_compact (from_le [0; 1; 0; 2]) = (1, false, false) /\
+  bits_to_target [255; 255; 127; 0] = Ok (PInt 0) /\ bits_to_target [0; 0; 1; 1] = Ok (PInt 1).
+Proof. repeat split; reflexivity. Qed.
 
-(* for four-byte bits outside the guard there is no v with bits_to_target = v (an int) and
-   SetCompact = v without negative / overflow flag *)
-Lemma compact_guard_exact bits :
-  bytes_ok bits -> length bits = 4%nat -> compact_guard bits = false ->
-  forall v, ~ (bits_to_target bits = Ok (PInt v) /\ set_compact (from_le bits) = (v, false, false)).
-Proof.
-  intros Hok Hlen G v [HT HS].
-  destruct bits as [|b0 [|b1 [|b2 [|e [|? ?]]]]]; try discriminate.
-  assert (bits4_ok b0 b1 b2 e) as H4.
-  { unfold bytes_ok in Hok. inversion Hok as [|? ? A0 G1]; subst. inversion G1 as [|? ? A1 G2]; subst.
-    inversion G2 as [|? ? A2 G3]; subst. inversion G3 as [|? ? A3 _]; subst.
-    unfold byte_ok in *. repeat split; lia. }
-  unfold compact_guard in G. apply bytes_okb_ok in Hok. rewrite Hok in G. cbn [andb] in G.
-  rewrite bits_to_target4 in HT.
-  destruct (Z.leb_spec 3 e) as [He|He]; [|discriminate HT]. cbn [andb] in G.
-  destruct (Z.ltb_spec b2 128) as [Hs|Hs]; cbn [andb] in G.
-  - rewrite HS in G. discriminate G.
-  - destruct (set_compact4_sign b0 b1 b2 e H4 Hs He) as [ovf SC]. cbv zeta in SC. rewrite SC in HS.
-    injection HS as Hv Hneg _. apply negb_false_iff, Z.eqb_eq in Hneg.
-    injection HT as HT. rewrite Hneg in Hv. rewrite Z.mul_0_l in Hv. unfold u256 in Hv.
-    rewrite Z.mod_0_l in Hv by (intros E; discriminate E).
-    assert (0 < 256 ^ (e - 3)) by (apply Z.pow_pos_nonneg; lia). nia.
-Qed.
+(* sign bit with a non-zero word: ValueError, Core flags negative; with a zero word: 0, no flag *)
+Lemma compact_sign_bit_instance :
+  bits_to_target [1; 0; 128; 4] = Err /\ set_compact (from_le [1; 0; 128; 4]) = (256, true, false) /\
+  bits_to_target [0; 0; 128; 4] = Ok (PInt 0) /\ set_compact (from_le [0; 0; 128; 4]) = (0, false, false) /\
+  bits_to_target [1; 0; 128; 0] = Ok (PInt 0) /\ set_compact (from_le [1; 0; 128; 0]) = (0, false, false).
+Proof. repeat split; reflexivity. Qed.
+
+(* overflowing exponent: ValueError, Core flags overflow; the largest exponents that fit *)
+Lemma compact_overflow_instance :
+  bits_to_target [0; 0; 1; 33] = Err /\ snd (set_compact (from_le [0; 0; 1; 33])) = true /\
+  bits_to_target [255; 255; 0; 33] = Ok (PInt (65535 * 256 ^ 30)) /\
+  bits_to_target [255; 0; 0; 34] = Ok (PInt (255 * 256 ^ 31)) /\
+  bits_to_target [0; 0; 0; 255] = Ok (PInt 0).
+Proof. repeat split; reflexivity. Qed.
+
+(* small targets: four bytes, Core's GetCompact *)
+Lemma target_to_bits_small_instance :
+  target_to_bits 0 = Ok [0; 0; 0; 0] /\ get_compact 0 = 0 /\
+  target_to_bits 1 = Ok [0; 0; 1; 1] /\ get_compact 1 = from_le [0; 0; 1; 1] /\
+  target_to_bits 128 = Ok [0; 128; 0; 2] /\ get_compact 128 = from_le [0; 128; 0; 2] /\
+  target_to_bits 4660 = Ok [0; 52; 18; 2] /\ get_compact 4660 = from_le [0; 52; 18; 2] /\
+  target_to_bits 32767 = Ok [0; 255; 127; 2] /\ get_compact 32767 = from_le [0; 255; 127; 2].
+Proof. repeat split; reflexivity. Qed.
